@@ -137,16 +137,35 @@ class Func:
             for b in self.blocks:
                 s = [x for x in b['s']]
                 live = s
-                if len(s) == 2 and b.get('tcv') is not None:
+                tcv = b.get('tcv')
+                if len(s) == 2 and tcv is None and b.get('tc'):
+                    tcv = self.eval_const(b['tc'])
+                if len(s) == 2 and tcv is not None:
                     # the front end folded the branch condition for this instantiation
                     # (if constexpr, integral-constant tests, short-circuit operands)
-                    live = [s[0]] if b['tcv'] else [s[1]]
+                    live = [s[0]] if tcv else [s[1]]
                 self._succ[b['id']] = [x for x in live if x >= 0]
                 self._hedges[b['id']] = inb.get(b['id'], [])
         r = self._succ[bid]
         if handlers and self._hedges[bid]:
             r = r + [h for h in self._hedges[bid] if h not in r]
         return r
+    def eval_const(self, nid, depth=0):
+        """constant value of a branch condition when it only consists of literals, folded constants and calls to
+        library functions whose every return yields the same literal (e.g. a 'no guard' helper returning true)"""
+        if not nid or depth > 6: return None
+        n = self.nodes[nid]
+        if n is None: return None
+        if 'cv' in n: return n['cv']
+        k = n['k']
+        if k == 'lit' and isinstance(n.get('v'), (bool, int)) and n.get('v') is not None: return int(n['v'])
+        if k == 'un' and n['op'] == '!':
+            v = self.eval_const(n['e'], depth + 1)
+            return None if v is None else int(not v)
+        if k in ('icast', 'cast'): return self.eval_const(n['e'], depth + 1)
+        if k == 'call' and 'fk' in n and n.get('org') == 1:
+            return self.F.const_return(n['fk'], depth + 1)
+        return None
     @property
     def entry(self): return self.d.get('entry')
     @property
@@ -192,6 +211,12 @@ class Func:
         if self.entry is not None:
             go(self.entry, [], {})
         return res
+    def aborts(self, path):
+        """the path ends in a call of a noreturn assertion handler"""
+        for i in self.path_nodes(path):
+            n = self.nodes[i]
+            if n and n['k'] == 'call' and n.get('n') in ('__assert_fail', 'abort', 'terminate', 'assertion_failed', 'assertion_failed_msg', '__builtin_unreachable'): return True
+        return False
     def path_nodes(self, path):
         out = []
         for b in path:
@@ -275,12 +300,40 @@ class Facts:
             elif 'tt' in x: out.append(self.strs[x['tt']])
             else: out.append('?')
         return out
+    def const_return(self, fk, depth=0):
+        if not hasattr(self, '_cret'): self._cret = {}
+        if fk in self._cret: return self._cret[fk]
+        self._cret[fk] = None
+        f = self.bykey.get(fk)
+        if f is None or not f.blocks or depth > 6: return None
+        vals = set()
+        rb = f.reachable_blocks()
+        for b in rb:
+            for i in f.bmap[b]['e']:
+                n = f.nodes[i]
+                if n and n['k'] == 'ret':
+                    if not n['e']: return None
+                    vals.add(f.eval_const(n['e'], depth + 1))
+        r = vals.pop() if len(vals) == 1 else None
+        self._cret[fk] = r
+        return r
     def by_q(self, q):
         if self._byq is None:
             self._byq = {}
             for f in self.funcs: self._byq.setdefault(f.q, []).append(f)
         return self._byq.get(q, [])
     def select(self, pred): return [f for f in self.funcs if pred(f)]
+    def funcs_of_class(self, type_id):
+        """functions whose innermost enclosing class is the one with this interned type id"""
+        if not hasattr(self, '_byclass'):
+            self._byclass = {}
+            for f in self.funcs:
+                cs = [c for c in f.d['ctx'] if 'c' in c]
+                if cs: self._byclass.setdefault(cs[-1]['t'], []).append(f)
+        return self._byclass.get(type_id, [])
+    def class_type(self, f):
+        cs = [c for c in f.d['ctx'] if 'c' in c]
+        return self.strs[cs[-1]['t']] if cs else None
     def rec_by_q(self, q):
         if self._recq is None:
             self._recq = {}
